@@ -2281,7 +2281,7 @@ def py_serializable(model) -> list:
 
 # --------------------------------------------------------------------------- one case: implementation + oracle + Coq term
 
-CASE_HEADER_C03 = CASE_HEADER + "From IRV Require Import C03.Inv C03.Iso.\n"
+CASE_HEADER_C03 = CASE_HEADER + "From IRV Require Import C03.Inv C03.Iso C03.Tree C03.TreeF.\n"
 
 
 def describe_model(model) -> str:
@@ -2387,6 +2387,9 @@ PREDICATES = [
     ("agree_after_ser", "agree_after_ser np h m o1"),
     ("agree_roundtrip", "agree_roundtrip np h m o2"),
     ("iso_statement", "iso_statement_b np h m"),
+    # the statement of theorem C03_iso (tree form: Tree.v / TreeF.v) on this state, and old hypothesis => new one
+    ("iso_tree_statement", "iso_tm_statement_b np h m"),
+    ("serializable_implies_tree", "implb (inv_b h && serializable_b h m) (serializable_tm np h m)"),
     ("serializable_flag", "Bool.eqb (inv_b h && serializable_b h m) f"),
 ]
 
